@@ -1,8 +1,13 @@
 (* parse_query as the user calls it, with its effect on the process-wide state: s_complex.rs
    parse_query -> make_query, which resets LOGIC_VAR_ID and calls start_query() (clears the stop
    flag).  Model/ParseTerm.parse_query drops that effect; here it is kept. *)
-From Suiron Require Import Model.Term Model.Subst Model.Rename Model.PResult Model.ParseTerm Model.Solve.
+From Suiron Require Import Model.Term Model.Subst Model.Rename Model.PResult Model.ParseTerm Model.ParseGoal Model.Tokenizer Model.ParseRule Model.Solve.
 Open Scope N_scope.
+
+(* parse_rule as the user calls it: the real leaf parsers plugged in, with fuel that always suffices
+   (Properties/C18.v: C18_parse_rule) *)
+Definition api_parse_rule (s : str) : res (presult rule) :=
+  parse_rule (parse_subgoal (length s + 2)) (parse_complex (length s + 2)) (2 * length s + 3) s.
 
 Definition api_parse_query (fuel : nat) (to_parse : str) (w : world) : res (presult (goal * world)) :=
   let parse2 :=
